@@ -350,6 +350,7 @@ def check_coupling(ctx, only_localisable=False):
     loops = [l for l in walk_no_nested(g.node) if isinstance(l, ast.For)]
     ok = False
     found = ""
+    const_table = {}
     for l in loops:
         it = l.iter
         found = ast.unparse(it)
@@ -359,20 +360,41 @@ def check_coupling(ctx, only_localisable=False):
             subj = [c for c in ast.walk(l) if is_call_to(c, "subject_to")]
             tgt = l.target.elts[0].id if isinstance(l.target, ast.Tuple) else None
             ok = ok and len(subj) == 1 and subj[0].args and ast.unparse(subj[0].args[0]) == tgt
-            # only parametric rows may be skipped (by a guard around subject_to or by an early continue)
-            skips = []
-            for s in subj:
-                skips += [(t, not pol) for t, pol in scg.guard_conjuncts(s)]
-            for cnt in [x for x in ast.walk(l) if isinstance(x, ast.Continue)]:
-                gsc = scg.guards(cnt)
-                inner = [(t, pol) for t, pol in gsc if scg.within(t, l)]
-                skips += inner
-            for t, pol in skips:
-                txt = ast.unparse(t).replace(" ", "")
-                okf = pol is True and txt.endswith("is_parametric(%s)" % tgt) and (txt.startswith("advanced.") or txt.startswith("opti.advanced."))
-                ok = ok and okf
+            # which rows reach the solver, as a table over (row has no decision variable, row is a constant):
+            # rows with decision variables and CONSTANT rows must be handed over (a false constant bound raises there);
+            # only a row that depends on parameters alone may be skipped (Opti cannot take it)
+            from ..ceval import ceval, Unknown
+
+            def placed(env):
+                def run(stmts):
+                    for st in stmts:
+                        if isinstance(st, ast.If):
+                            r = run(st.body if ceval(st.test, env, None) else st.orelse)
+                            if r is not None:
+                                return r
+                        elif isinstance(st, ast.Continue):
+                            return False
+                        elif any(x is subj[0] for x in ast.walk(st)):
+                            return True
+                    return None
+                return bool(run(l.body))
+            atoms_p = sorted({ast.unparse(x) for x in ast.walk(l) if is_call_to(x, "is_parametric") and x.args and ast.unparse(x.args[0]) == tgt})
+            atoms_k = sorted({ast.unparse(x) for x in ast.walk(l) if is_call_to(x, "is_constant")})
+            table = {}
+            try:
+                for pv, kv_ in ((False, False), (True, False), (True, True)):
+                    env = {a: pv for a in atoms_p}
+                    env.update({a: kv_ for a in atoms_k})
+                    table[(pv, kv_)] = placed(env) if subj else None
+            except Unknown as e:
+                table = {"unknown": str(e)}
+            ok = ok and table.get((False, False)) is True
+            const_table = table
     ctx.check(ok, "add_coupling_constraints forwards every bounds_T row", detail="rows of bounds_T dropped or mis-addressed",
               expected="for c,kw in self.time_grid.bounds_T(self.T_local, self.t0_local, k, self.T, self.N): opti.subject_to(c) unless parametric", found=found, fi=g)
+    ctx.check(const_table.get((True, True)) is True, "add_coupling_constraints: a numeric min/max bound is still checked", detail="with a numeric (or parametric) horizon the grid's min/max bound has no decision variable and is dropped without being checked: a violated bound is accepted silently",
+              expected="rows without decision variables that are constants reach opti.subject_to (which raises for a false constant); only rows that depend on parameters alone are skipped",
+              found="placed(no decision variable, constant) = %s" % const_table, fi=g, sample={"table": str(const_table)})
 
 
 @rule("R06.4", min_instances=9, desc="every grid class emits a min/max bound on the interval(s) its spacing makes extreme, for every localisation mode")
